@@ -55,11 +55,12 @@ def tag(value):
 
 
 def make_flow(kind, m):
-    """A fresh flow: bare ints or pairs with private contexts."""
+    """A fresh flow of m values -1, 0, 1, ...: bare ints or pairs with private contexts.
+    (Starting at -1 makes falsy results such as inc(-1) == 0 appear.)"""
     if kind == "bare":
-        return list(range(m))
+        return list(range(-1, m - 1))
     if kind == "ctx":
-        return [(i, {"i": i}) for i in range(m)]
+        return [(i, {"i": i}) for i in range(-1, m - 1)]
     raise ValueError(kind)
 
 
